@@ -71,11 +71,11 @@ type AS struct {
 }
 
 type Asset struct {
-	Path     string            // relative to vod root, slash separated
-	MPDs     []string          // names
-	ASets    map[string][]AS   // by MPD name
-	Reps     map[string]*Rep   // by id
-	RefRepID string            // first video (sorted by id) else first audio
+	Path      string          // relative to vod root, slash separated
+	MPDs      []string        // names
+	ASets     map[string][]AS // by MPD name
+	Reps      map[string]*Rep // by id
+	RefRepID  string          // first video (sorted by id) else first audio
 	LoopDurMS int64
 	// Bad is set when the model says the asset must be left out (C15).
 	Bad string
